@@ -415,7 +415,11 @@ def rand_tgzc_splice_vectors(sz, seed):
         ptimes = sorted(rng.sample(range(0, L + 1, 8), rng.randint(0, 3)))
         tiers = [{"kind": "I", "name": "words", "ents": ents}, {"kind": "P", "name": "marks", "ents": [{"t": t * M, "l": "m"} for t in ptimes]}]
         if rng.random() < 0.45:
-            out.append(("tgzc", {"samples": s, "tiers": tiers}, rate, width))
+            # by default both kinds of tier are adjusted; each flag may be switched off (those tiers then stay as they are)
+            r = rng.random()
+            flags = {"adjP": r >= 0.2, "adjI": not (0.2 <= r < 0.35)}
+            third = [{"kind": "I", "name": "phones", "ents": [dict(x, l="p") for x in ents[::2]]}] if rng.random() < 0.5 else []
+            out.append(("tgzc", {"samples": s, "tiers": tiers + third, "flags": flags}, rate, width))
         else:
             audio_ids = list(range(1, L + 1))
             align = rng.random() < 0.3
